@@ -162,7 +162,7 @@ def step (st : St) (op impl : String) : St × StepOut :=
     let g := match (field resTxt "pn=").map intOf with
       | some pn =>
         let g := { g with bytesSent := g.bytesSent + size, largestSent := g.largestSent.set sp pn,
-                          pkts := g.pkts ++ [{ pn := pn, space := sp, size := size, frames := ids.map (·, false),
+                          pkts := g.pkts ++ [{ pn := pn, space := sp, size := size, sendTime := intOf now, frames := ids.map (·, false),
                                                ackEliciting := !(fr.isEmpty && sfr.isEmpty), mtu := mtu = "1", probe := probe = "1",
                                                zeroRTT := lvl = .zeroRTT }] }
         match field resTxt "sk=" with
@@ -202,12 +202,16 @@ def step (st : St) (op impl : String) : St × StepOut :=
           s!"ACK covers skipped packet number {p} ({newer} newer skips since) but result `{resTxt}`")]
       | none => []
       else []
+    -- loss detection ran (something was visibly acknowledged): overdue packets must be resolved now
+    let newlyAcked := implOk ∧ evs.any (·.startsWith "a")
+    let g := if newlyAcked then { g with largestAcked := g.largestAcked.set sp (max (g.largestAcked.getD sp (-1)) largest) } else g
+    let f5 : List Fail := if newlyAcked then g.overdueNotLost sp (intOf now) (lossDelayOf e.env) else []
     let tags := [s!"ack:{l}:{match out.res with | .ok => if out.evs.isEmpty then "nothing" else "ok" | .err c => fmtErr c | .panic _ => "panic"}"] ++
       (if ranges.length > 1 then ["ack:multi"] else []) ++
       (if out.evs.any (fun x => match x with | .lost _ => true | _ => false) then ["ack:loss"] else []) ++
       (if out.evs.any (fun x => match x with | .ignore _ => true | _ => false) then ["ack:ignore"] else []) ++
       (if s'.app.lossTime ≠ 0 ∨ (s'.initial.any (·.lossTime ≠ 0)) ∨ (s'.handshake.any (·.lossTime ≠ 0)) then ["ack:losstime"] else [])
-    fin { st with s := s', g := g } res tags (f1 ++ f2 ++ f3 ++ f4)
+    fin { st with s := s', g := g } res (tags ++ (if newlyAcked then ["ack:lossdetect"] else [])) (f1 ++ f2 ++ f3 ++ f4 ++ f5)
   | ["timeout", now] =>
     let g0 := st.s.app.gen
     let (s', out) := st.s.step (.timeout (intOf now)) e
@@ -260,7 +264,8 @@ def step (st : St) (op impl : String) : St × StepOut :=
           acc ++ [("ledger_missing_after_retry", "-", s!"packet {p.pn} (space {p.space}) dropped by the Retry but frames {(p.frames.filter (fun f => !f.2)).map (·.1)} not reported lost")]
         else acc) [] else []
     -- everything in the Initial and application-data spaces is resolved now; packet numbers skipped before are forgotten
-    let g := { g with pkts := g.pkts.map (fun p => if p.space ≠ 1 then { p with gone := true } else p), skipped := [] }
+    let g := { g with pkts := g.pkts.map (fun p => if p.space ≠ 1 then { p with gone := true } else p), skipped := [],
+                      largestAcked := (g.largestAcked.set 0 (-1)).set 2 (-1) }
     fin { st with s := s', g := g } res ["retry"] (f1 ++ f2)
   | ["migrate", now, _mds] =>
     let (s', out) := st.s.step (.migrate (intOf now)) e
